@@ -33,6 +33,7 @@ type fnInfo struct {
 	mutates bool
 	via     bool // the receiver's struct has a --via field: the instance it points to is an explicit parameter
 	mutVia  bool // ... and the function modifies that instance (it is then the first component of the result)
+	mutParam *types.Var // a parameter of a devirtualised interface type (a pointer to a named slice) whose slice the function rebinds: its new value is the first component of the result
 	errCtor bool
 	params  []param // extra leading parameters (library parameters such as the page size, interface methods)
 	mark    int
@@ -49,10 +50,8 @@ type tr struct {
 	objects map[string]bool   // struct types whose pointers are object ids (--object S)
 	via     map[string]string // struct name -> field that points to the single instance of a by-value struct (--via S.f)
 	devirt  map[string]string // interface name -> struct whose pointers its values are (--devirt I=S)
+	rootPk  *pkgInfo          // the package named by --pkg
 	usesPtr bool              // the output needs lib.GoLitePtr (maps, iter_objs)
-	packed  map[string]bool   // struct types whose values are opaque handles built / read by pure parameters (--packed S)
-	chans   bool              // channels are opaque handles (--chan)
-	splitTo map[string]string // package path -> file that gets its records and functions (--split)
 	w       *world
 	fns     map[*types.Func]*fnInfo
 	structs map[*types.TypeName]*structInfo
@@ -66,10 +65,7 @@ func (t *tr) failf(n ast.Node, format string, a ...any) {
 	panic(&unsupported{fmt.Sprintf("%s: %s", t.w.pos(n), fmt.Sprintf(format, a...))})
 }
 
-// extraFiles: file name -> text of the files written next to --out (--split)
-var extraFiles = map[string]string{}
-
-func translate(repo, pkgdir string, roots, fuels, params, ifaces, shapes, require, objects, vias, devirts, packeds, splits []string, chans, printShapes bool) (text string, err error) {
+func translate(repo, pkgdir string, roots, fuels, params, ifaces, shapes, require, objects, vias, devirts, stdpkgs []string, printShapes bool) (text string, err error) {
 	defer func() {
 		if r := recover(); r != nil {
 			if u, ok := r.(*unsupported); ok {
@@ -83,6 +79,21 @@ func translate(repo, pkgdir string, roots, fuels, params, ifaces, shapes, requir
 	if err != nil {
 		return "", err
 	}
+	if err := w.useStd(stdpkgs); err != nil {
+		return "", err
+	}
+	// the standard-library packages first: the repository packages that import
+	// them then see the same type-checked package
+	var stdOrder []string
+	for sp := range w.stdpkgs {
+		stdOrder = append(stdOrder, sp)
+	}
+	sort.Strings(stdOrder)
+	for _, sp := range stdOrder {
+		if _, err := w.load(sp); err != nil {
+			return "", err
+		}
+	}
 	path := w.mod
 	if pkgdir != "" && pkgdir != "." {
 		path = w.mod + "/" + filepath.ToSlash(pkgdir)
@@ -91,20 +102,7 @@ func translate(repo, pkgdir string, roots, fuels, params, ifaces, shapes, requir
 	if err != nil {
 		return "", err
 	}
-	t := &tr{w: w, fns: map[*types.Func]*fnInfo{}, structs: map[*types.TypeName]*structInfo{}, fuel: map[string]string{}, libpar: map[string]string{}, iface: map[string]string{}, opaque: map[string]bool{}, objects: map[string]bool{}, via: map[string]string{}, devirt: map[string]string{}}
-	t.packed = map[string]bool{}
-	for _, v := range packeds {
-		t.packed[strings.TrimSpace(v)] = true
-	}
-	t.chans = chans
-	t.splitTo = map[string]string{}
-	for _, v := range splits {
-		i := strings.Index(v, "=")
-		if i < 0 {
-			return "", fmt.Errorf("bad --split %q", v)
-		}
-		t.splitTo[w.mod+"/"+filepath.ToSlash(v[:i])] = v[i+1:]
-	}
+	t := &tr{rootPk: root, w: w, fns: map[*types.Func]*fnInfo{}, structs: map[*types.TypeName]*structInfo{}, fuel: map[string]string{}, libpar: map[string]string{}, iface: map[string]string{}, opaque: map[string]bool{}, objects: map[string]bool{}, via: map[string]string{}, devirt: map[string]string{}}
 	for _, v := range vias {
 		i := strings.Index(v, ".")
 		if i < 0 {
@@ -182,7 +180,7 @@ func translate(repo, pkgdir string, roots, fuels, params, ifaces, shapes, requir
 		r = strings.TrimSpace(r)
 		var found *fnInfo
 		for _, fi := range t.fns {
-			if fi.pk != root {
+			if fi.pk != root && !fi.pk.std {
 				continue
 			}
 			if fnKey(fi) == r {
@@ -203,31 +201,16 @@ func translate(repo, pkgdir string, roots, fuels, params, ifaces, shapes, requir
 	header := func() string {
 		var hb strings.Builder
 		hb.WriteString("(* GENERATED by harness/cmd/go2coq from " + filepath.ToSlash(pkgdir) + " (roots: " + strings.Join(roots, ", ") + ").\n")
+		if len(stdOrder) > 0 {
+			hb.WriteString("   Standard-library packages translated from the toolchain's sources ($GOROOT/src, " + w.gover + "): " + strings.Join(stdOrder, ", ") + ".\n")
+		}
 		hb.WriteString("   Do not edit; regenerated from the working tree on every run.  Semantics of the\n   vocabulary: coq/lib/GoLite.v; subset and translation scheme: notes/TRANSLATOR.md. *)\n")
 		lib := "lib.GoLite"
 		if t.usesPtr {
 			lib += " lib.GoLitePtr"
 		}
-		hb.WriteString("From Coq Require Import List ZArith Bool.\nFrom GL Require Import " + lib + ".\n")
+		hb.WriteString("From Coq Require Import List ZArith Bool.\nFrom GL Require Import " + lib + ".\nImport ListNotations.\nOpen Scope Z_scope.\n\nModule Gen.\n")
 		return hb.String()
-	}
-	// the files that get the records and functions of the --split packages (in the order of the flags)
-	var splitFiles []string
-	splitBody := map[string]*strings.Builder{}
-	splitRecs := map[string]*strings.Builder{}
-	for _, sp := range splits {
-		f := sp[strings.Index(sp, "=")+1:]
-		if _, ok := splitBody[f]; !ok {
-			splitFiles = append(splitFiles, f)
-			splitBody[f] = &strings.Builder{}
-			splitRecs[f] = &strings.Builder{}
-		}
-	}
-	bodyOf := func(pkgPath string, main *strings.Builder, m map[string]*strings.Builder) *strings.Builder {
-		if f, ok := t.splitTo[pkgPath]; ok {
-			return m[f]
-		}
-		return main
 	}
 	if printShapes {
 		var sb strings.Builder
@@ -258,11 +241,11 @@ func translate(repo, pkgdir string, roots, fuels, params, ifaces, shapes, requir
 			if err != nil {
 				fi.skip = err.Error()
 			} else {
-				bodyOf(fi.pk.path, &body, splitBody).WriteString(text)
+				body.WriteString(text)
 				continue
 			}
 		}
-		bodyOf(fi.pk.path, &body, splitBody).WriteString("\n(* NOT TRANSLATED: " + fnKey(fi) + ": " + commentSafe(fi.skip) + " *)\n")
+		body.WriteString("\n(* NOT TRANSLATED: " + fnKey(fi) + ": " + commentSafe(fi.skip) + " *)\n")
 	}
 	// the functions that must be there
 	need := map[string]bool{}
@@ -306,30 +289,25 @@ func translate(repo, pkgdir string, roots, fuels, params, ifaces, shapes, requir
 				}
 			}
 		}
-		pp := ""
-		if s.obj.Pkg() != nil {
-			pp = s.obj.Pkg().Path()
-		}
-		bodyOf(pp, &b, splitRecs).WriteString(t.record(s))
+		b.WriteString(t.record(s))
 	}
 	for _, s := range t.sorder {
 		emit(s)
 	}
 	b.WriteString(body.String())
 	b.WriteString("\nEnd Gen.\n")
-	tail := "Import ListNotations.\nOpen Scope Z_scope.\n\nModule Gen.\n"
-	imports := ""
-	exports := ""
-	for _, f := range splitFiles {
-		base := strings.TrimSuffix(filepath.Base(f), ".v")
-		extraFiles[f] = header() + tail + splitRecs[f].String() + splitBody[f].String() + "\nEnd Gen.\n"
-		imports += "From GLGEN Require Import " + base + ".\n"
-		exports += "Export " + base + ".Gen.\n"
-	}
-	return header() + imports + tail + exports + b.String(), nil
+	return header() + b.String(), nil
 }
 
 func fnKey(fi *fnInfo) string {
+	if fi.pk.std {
+		// functions of a --stdpkg package are named pkgname.Func (pkgname.Type.Method)
+		pre := fi.pk.pkg.Name() + "."
+		if r := fi.decl.Recv; r != nil && len(r.List) == 1 {
+			return pre + recvTypeName(r.List[0].Type) + "." + fi.decl.Name.Name
+		}
+		return pre + fi.decl.Name.Name
+	}
 	if r := fi.decl.Recv; r != nil && len(r.List) == 1 {
 		return recvTypeName(r.List[0].Type) + "." + fi.decl.Name.Name
 	}
@@ -428,6 +406,21 @@ func (t *tr) calleeOf(pk *pkgInfo, call *ast.CallExpr) *fnInfo {
 	if !ok {
 		return nil
 	}
+	// a method called on a value of an interface type declared outside the repository
+	// (container/heap.Interface, --stdpkg) whose values are pointers to one named slice
+	// type of the root package (--devirt I=S): the method of that type
+	if sel, ok := fun.(*ast.SelectorExpr); ok {
+		if tv, ok := pk.info.Types[sel.X]; ok {
+			if target := t.devirtSlice(tv.Type); target != nil {
+				for _, fi := range t.fns {
+					if fi.pk == t.rootPk && fi.decl.Recv != nil && len(fi.decl.Recv.List) == 1 && recvTypeName(fi.decl.Recv.List[0].Type) == target.Obj().Name() && fi.decl.Name.Name == sel.Sel.Name {
+						return fi
+					}
+				}
+				return nil
+			}
+		}
+	}
 	// a method of an interface whose values are pointers to one struct (--devirt I=S)
 	if sig, ok := f.Type().(*types.Signature); ok && sig.Recv() != nil {
 		if n, ok := types.Unalias(sig.Recv().Type()).(*types.Named); ok {
@@ -516,11 +509,6 @@ func (t *tr) classify() {
 				if tv, ok := info.Types[x.X]; ok && t.objectOf(tv.Type) != nil {
 					fi.pure = false
 				}
-				if tv, ok := info.Types[x.X]; ok && !tv.IsType() {
-					if n := t.packedOf(tv.Type); n != nil {
-						addParam(fi, t.packedParam(n, x.Sel.Name))
-					}
-				}
 			case *ast.BinaryExpr:
 				if x.Op == token.QUO || x.Op == token.REM {
 					if tv := info.Types[x.Y]; tv.Value == nil {
@@ -538,17 +526,6 @@ func (t *tr) classify() {
 				}
 			case *ast.IncDecStmt:
 				t.noteAssign(fi, x.X)
-			case *ast.CompositeLit:
-				if tv, ok := info.Types[x]; ok {
-					if n := t.packedOf(tv.Type); n != nil {
-						addParam(fi, t.packedParam(n, ""))
-					}
-				}
-			case *ast.UnaryExpr:
-				if x.Op == token.ARROW && t.chans {
-					fi.pure = false
-					addParam(fi, param{"chan_recv", "Z -> M (unit)"})
-				}
 			case *ast.TypeAssertExpr:
 				if name, ok := t.assertParam(fi.pk, x); ok {
 					fi.pure = false
@@ -560,18 +537,8 @@ func (t *tr) classify() {
 						switch id.Name {
 						case "copy", "make", "panic", "append":
 							fi.pure = false
-							if tv, ok := info.Types[x]; ok && id.Name == "make" && t.chans {
-								if _, isChan := tv.Type.Underlying().(*types.Chan); isChan {
-									addParam(fi, param{"chan_make", "M (Z)"})
-								}
-							}
 						case "delete":
 							t.noteAssign(fi, x.Args[0])
-						case "close":
-							if t.chans {
-								fi.pure = false
-								addParam(fi, param{"chan_close", "Z -> M (unit)"})
-							}
 						case "new":
 							if tv, ok := info.Types[x]; ok && t.objectOf(tv.Type) != nil {
 								fi.pure = false
@@ -601,6 +568,23 @@ func (t *tr) classify() {
 								} else {
 									fi.mutates = true
 								}
+							}
+						}
+					}
+					// the callee rebinds the slice behind a devirtualised interface value held
+					// in a parameter of this function: the parameter's new value is returned
+					if c.mutates && c.recv != nil && t.devirtSlice(c.recv.Type()) == nil {
+						if sel, ok := ast.Unparen(x.Fun).(*ast.SelectorExpr); ok {
+							if tv, ok := info.Types[sel.X]; ok && t.devirtSlice(tv.Type) != nil {
+								t.noteMutParam(fi, sel.X, x)
+							}
+						}
+					}
+					if c.mutParam != nil {
+						csig := c.obj.Type().(*types.Signature)
+						for i := 0; i < csig.Params().Len() && i < len(x.Args); i++ {
+							if csig.Params().At(i) == c.mutParam {
+								t.noteMutParam(fi, x.Args[i], x)
 							}
 						}
 					}
@@ -686,6 +670,28 @@ func (t *tr) isViaSel(pk *pkgInfo, x *ast.SelectorExpr) bool {
 	return ok && f == x.Sel.Name
 }
 
+// noteMutParam: the expression e (a devirtualised interface value) is rebound by a
+// call; it must be a parameter of fi, which then returns its new value first
+func (t *tr) noteMutParam(fi *fnInfo, e ast.Expr, at ast.Node) {
+	id, ok := ast.Unparen(e).(*ast.Ident)
+	if !ok {
+		t.failf(at, "a devirtualised interface value that is modified must be a parameter of the function")
+	}
+	v, _ := fi.pk.info.Uses[id].(*types.Var)
+	sig := fi.obj.Type().(*types.Signature)
+	isParam := false
+	for i := 0; i < sig.Params().Len(); i++ {
+		isParam = isParam || sig.Params().At(i) == v
+	}
+	if v == nil || !isParam {
+		t.failf(at, "a devirtualised interface value that is modified must be a parameter of the function")
+	}
+	if fi.mutParam != nil && fi.mutParam != v {
+		t.failf(at, "two modified interface parameters")
+	}
+	fi.mutParam = v
+}
+
 func addParam(fi *fnInfo, p param) {
 	for _, q := range fi.params {
 		if q.name == p.name {
@@ -720,33 +726,41 @@ func (t *tr) inRepo(path string) bool {
 	return path == t.w.mod || strings.HasPrefix(path, t.w.mod+"/")
 }
 
-// packedOf: ty is a struct type whose values are opaque handles (--packed S)
-func (t *tr) packedOf(ty types.Type) *types.Named {
+// devirtSlice: ty is a named interface type declared outside the repository (a
+// --stdpkg package) that --devirt I=S maps to the named slice type S of the root
+// package; its values are *S (nil otherwise).  TRUSTED like every --devirt: the
+// callers of the translated functions pass values of that dynamic type.
+func (t *tr) devirtSlice(ty types.Type) *types.Named {
 	n, ok := types.Unalias(ty).(*types.Named)
+	if !ok || len(t.devirt) == 0 || t.rootPk == nil || t.rootPk.pkg == nil {
+		return nil
+	}
+	iface, isI := n.Underlying().(*types.Interface)
+	if !isI {
+		return nil
+	}
+	if pk := n.Obj().Pkg(); pk == nil || t.inRepo(pk.Path()) {
+		return nil
+	}
+	sn, ok := t.devirt[n.Origin().Obj().Name()]
 	if !ok {
 		return nil
 	}
-	if _, ok := n.Underlying().(*types.Struct); !ok {
+	tn, ok := t.rootPk.pkg.Scope().Lookup(sn).(*types.TypeName)
+	if !ok {
 		return nil
 	}
-	if pk := n.Obj().Pkg(); pk == nil || !t.inRepo(pk.Path()) || !t.packed[n.Origin().Obj().Name()] {
+	target, ok := types.Unalias(tn.Type()).(*types.Named)
+	if !ok {
 		return nil
 	}
-	return n
-}
-
-// packedParam: the pure parameter that builds (field "") or reads a field of a packed struct
-func (t *tr) packedParam(n *types.Named, field string) param {
-	st := n.Underlying().(*types.Struct)
-	name := n.Origin().Obj().Name()
-	if field == "" {
-		ty := ""
-		for i := 0; i < st.NumFields(); i++ {
-			ty += "Z -> "
-		}
-		return param{name + "_mk", ty + "Z"}
+	if _, isS := target.Underlying().(*types.Slice); !isS {
+		return nil
 	}
-	return param{name + "_" + field, "Z -> Z"}
+	if !types.Implements(types.NewPointer(target), iface) {
+		return nil
+	}
+	return target
 }
 
 // objectOf: ty is a pointer to a struct type declared as an object type
@@ -1046,9 +1060,6 @@ func (t *tr) structOf(ty types.Type) *types.Named {
 	if t.objects[n.Origin().Obj().Name()] {
 		return nil // an object type is only used through pointers
 	}
-	if t.packed[n.Origin().Obj().Name()] {
-		return nil // a packed struct: a handle
-	}
 	return n
 }
 
@@ -1126,17 +1137,14 @@ func (t *tr) coqType(at ast.Node, ty types.Type) string {
 	if t.objectOf(ty) != nil {
 		return "Z" // an object id
 	}
-	if t.packedOf(ty) != nil {
-		return "Z" // a packed struct value: a handle
-	}
-	if _, isChan := ty.Underlying().(*types.Chan); isChan && t.chans {
-		return "Z" // a channel: a handle
-	}
 	if isEmptyInterface(ty) {
 		return "Z" // any: a handle
 	}
 	if ptrSliceOf(ty) {
 		return t.coqType(at, ty.(*types.Pointer).Elem())
+	}
+	if target := t.devirtSlice(ty); target != nil {
+		return t.coqType(at, target) // the slice value the pointer points to
 	}
 	if n := t.structOf(ty); n != nil {
 		return t.structInfoOf(at, n).name
@@ -1156,8 +1164,7 @@ func (t *tr) coqType(at ast.Node, ty types.Type) string {
 			return "gslice"
 		}
 	case *types.Map:
-		_, chanElem := types.Unalias(u.Elem()).Underlying().(*types.Chan)
-		if isIntegerType(u.Key()) && (isIntegerType(u.Elem()) || t.objectOf(u.Elem()) != nil || (chanElem && t.chans)) {
+		if isIntegerType(u.Key()) && (isIntegerType(u.Elem()) || t.objectOf(u.Elem()) != nil) {
 			t.usesPtr = true
 			return "gomap" // an association list value (lib/GoLitePtr.v)
 		}
@@ -1235,7 +1242,7 @@ func init() {
 		zlen znth zsub zsplice gslice mkSl s_arr s_off s_len s_cap nil_slice arr_get arr_set sl_get sl_cap sl_put wf_slice
 		load store reslice gocopy gomake step Next Done ctl Fall Return iter be_bytes be_put be_val be_get cast_id
 		Z N nat bool unit tt true false list nil cons fst snd pair negb andb orb length app nth firstn skipn repeat map
-		Some None option S O st c r_ chan_make chan_close chan_recv
+		Some None option S O st c r_
 		gomap mapnew mapfind mapget mapdel mapset maplen iter_objs fld_load fld_store obj_new obj_arr goappend b2z z2b
 		left right inl inr inleft inright exist existT ex_intro conj or_introl or_intror eq_refl I Eq Lt Gt Z0 Zpos Zneg xH xO xI N0 Npos
 		id not and or iff ex eq le lt ge gt plus mult minus pred min max fold_left fold_right rev In Forall seq combine split
